@@ -12,10 +12,10 @@ import (
 func init() {
 	register(&propDef{
 		id: "C33", run: runC33, minOblig: 14,
-		explanation: "Decides the limit and binding clauses of C33 on (*connection).serverAuthenticate: (attempt cap) the attempts counter is incremented on every back edge of the request loop and every loop iteration reaches the request read only over the 'attempts < maxAuthServerAttempts' edge; (failure cap) by finite-domain evaluation over (authFailures, MaxAuthTries) the request read is reachable exactly when !(failures >= MaxAuthTries && MaxAuthTries > 0), and NewServerConn maps MaxAuthTries == 0 to 6; (failure counting) the value of authFailures carried around the loop after a non-partial failure is f+1 exactly when f > 0 || method != \"none\" || noneAuthCount != 1 (all 8 cases evaluated); (user binding) the store of the user name is unreachable when the name differs and a partial success was returned; (source-address) the accepting exit is reachable only over the nil edge of checkSourceAddressCriticalOption applied to the very Permissions value that is returned and to the connection's remote address; checkSourceAddress returns nil only from inside an IP-equal / CIDR-contains match, and errors on malformed entries and non-TCP addresses; (last-callback binding) every path of an iteration from the PublicKeyCallback invocation to Verify, to the end-of-iteration join or to a continue passes through cache.add, maxCachedPubKeys == 1 and add evicts before appending — so the cached decision used for a signature is the last PublicKeyCallback invocation. NOT decided: nothing numeric beyond these counters.",
+		explanation: "Decides the limit and binding clauses of C33 on (*connection).serverAuthenticate. Values are identified by role, never by the names of locals, parameters or receivers: the counters are the integer loop-carried values (header phis) of the request loop — the attempt counter is the one incremented on every back edge, the failure counter the one compared (either operand order) with a read of ServerConfig.MaxAuthTries, every remaining one is a request count (the count of \"none\" requests); the request read is the readPacket call, or the call of a helper that reads a packet, dominating the accept test. (attempt cap) the attempt counter is incremented on every back edge and every loop iteration reaches the request read only over the 'attempts < maxAuthServerAttempts' edge; (failure cap) by finite-domain evaluation over (failures, MaxAuthTries) the request read is reachable exactly when !(failures >= MaxAuthTries && MaxAuthTries > 0), and NewServerConn maps MaxAuthTries == 0 to 6; (failure counting) with the failure counter, every comparison of the method with \"none\" and the none-request count bound (8 cases), the value of the failure counter carried around the loop after a non-partial failure is f+1 exactly when f > 0 || method != \"none\" || the count of none requests (after this one) != 1 — the exemption test itself is evaluated, in whatever form it is written; (monotone) every integer loop-carried counter starts at 0 and is only ever incremented; (user binding) the store of the user name is unreachable when the name differs and a partial success was returned; (source-address) every possibly-nil definition of the accepted error either lies behind the nil edge of, or is itself the verdict of, checkSourceAddressCriticalOption applied to the very Permissions value that is returned and to RemoteAddr() — the check may live in a helper that returns its verdict (arguments mapped at each call site); on the call tree expanded in place (helper parameters resolved per call site, a helper's fatal-error return folded in the caller), after a PublicKeyCallback invocation a non-rejected decision reaches the cache update only through that check applied to the callback's Permissions; checkSourceAddress returns nil only from inside an IP-equal / CIDR-contains match (in it or a helper) on the TCP address's IP; (last-callback binding) on the expanded call tree every path of an iteration from a PublicKeyCallback invocation (also when the callback is handed to a helper as a func value) to a PublicKey.Verify call, to the end-of-iteration join or to a continue passes the recording of the decision in the cache (a call of a function that takes an entry by value and stores into the cache's entry slice, or such a store), the entry recorded is (a copy of) the one that received the callback's results, maxCachedPubKeys == 1 and the recording function evicts before appending — so the cached decision used for a signature is the last PublicKeyCallback invocation. NOT decided: nothing numeric beyond these counters; counters moved into a struct or comparisons moved into helpers are reported as anchor lost.",
 		assumptions: []string{"net.IP.Equal / net.IPNet.Contains contracts"},
 	})
-	tech("C33", "loop-structure rules on SSA (back-edge increments, cycle-must-cross), finite-domain evaluation of counters/flags, barrier reachability for the cache update")
+	tech("C33", "loop-structure rules on SSA (back-edge increments, cycle-must-cross), finite-domain evaluation of counters/flags identified by role, interprocedural mode-carrying walk of the call tree expanded in place (cache update / source-address check as barriers), verdict lifting through helpers")
 }
 
 func runC33(c *Ctx) {
@@ -24,19 +24,11 @@ func runC33(c *Ctx) {
 		return
 	}
 	fn := s.fn
-	c33Monotone(c, fn)
-	// request read: transport.readPacket call dominating A's block, inside the loop, closest to the header
-	var read *ssa.Call
-	for _, ci := range calls(fn, func(n string) bool { return strings.HasSuffix(n, ".readPacket") }) {
-		call, ok := ci.(*ssa.Call)
-		if ok && s.H.Dominates(call.Block()) && call.Block().Dominates(s.A.Block()) {
-			if read == nil || call.Block().Dominates(read.Block()) {
-				read = call
-			}
-		}
-	}
+	// request read: the readPacket call — or the call of a helper that reads a
+	// packet — dominating A's block, inside the loop, closest to the header
+	read := s.c33ReadSite()
 	if read == nil {
-		c.fail("C33.anchor", "request read", fn, "no readPacket call dominating the accept test inside the loop")
+		c.fail("C33.anchor", "request read", fn, "no readPacket call (direct or through a helper) dominating the accept test inside the loop")
 		return
 	}
 	// ---- attempts counter: int header phi incremented by 1 on every back edge
@@ -89,27 +81,34 @@ func runC33(c *Ctx) {
 		}
 	}
 	// ---- failures counter: int header phi compared with config.MaxAuthTries
+	// (identified by role: the loop-carried integer that is compared, in either
+	// operand order, with a read of ServerConfig.MaxAuthTries)
 	var failures *ssa.Phi
-	for _, in := range s.H.Instrs {
-		p, ok := in.(*ssa.Phi)
-		if !ok {
-			break
-		}
+	for _, p := range s.c33HeaderInts() {
 		for _, r := range *p.Referrers() {
-			if bo, ok := r.(*ssa.BinOp); ok && strings.HasSuffix(accessPath(bo.Y), "config.MaxAuthTries") {
+			bo, ok := r.(*ssa.BinOp)
+			if !ok {
+				continue
+			}
+			switch bo.Op {
+			case token.LSS, token.LEQ, token.GTR, token.GEQ, token.EQL, token.NEQ:
+			default:
+				continue
+			}
+			if bo.X == ssa.Value(p) && c33IsMaxTries(bo.Y) || bo.Y == ssa.Value(p) && c33IsMaxTries(bo.X) {
 				failures = p
 			}
 		}
 	}
 	if failures == nil {
-		c.fail("C33.failure-cap", "failures counter", s.H.Instrs[0], "no loop counter compared with config.MaxAuthTries")
+		c.fail("C33.failure-cap", "failures counter", s.H.Instrs[0], "no loop counter compared with ServerConfig.MaxAuthTries")
 	} else {
 		bad := ""
 		n := 0
 		for _, tc := range [][2]int64{{0, 6}, {5, 6}, {6, 6}, {7, 6}, {0, 1}, {1, 1}, {3, 0}, {1000, 0}, {5, -1}, {0, -1}} {
 			e := newEnv()
 			e.bind(failures, tc[0])
-			e.bindPath(fn, "config.MaxAuthTries", tc[1])
+			e.bindField(fn, "ServerConfig", "MaxAuthTries", tc[1])
 			cut := e.cuts(fn)
 			for k := range s.back {
 				cut[k] = true
@@ -122,8 +121,9 @@ func runC33(c *Ctx) {
 			}
 		}
 		c.check(bad == "", "C33.failure-cap", "failures >= MaxAuthTries && MaxAuthTries > 0", read, fmt.Sprintf("disconnect decision correct on %d (failures, MaxAuthTries) cases", n), bad)
-		c33FailureCount(s, failures)
+		c33FailureCount(s, failures, attempts)
 	}
+	c33Monotone(s, attempts, failures)
 	// NewServerConn default
 	if f := c.fn("ssh", "NewServerConn"); f != nil {
 		var st6 *ssa.Store
@@ -232,19 +232,23 @@ func runC33(c *Ctx) {
 	}
 	// ---- source address on the accepting exit
 	pv := s.ret.Results[0]
-	var saCalls []ssa.CallInstruction
-	for _, ci := range callsNamed(fn, "ssh.checkSourceAddressCriticalOption") {
-		a := ci.Common().Args
-		if a[1] != pv {
+	// the verdicts of the check applied to (RemoteAddr(), the returned perms),
+	// as seen in fn: the check itself, or a call of a helper whose nil-error
+	// results all lie behind / are the check's verdict (arguments mapped to the
+	// helper's call site)
+	var pass []edge
+	verdicts := map[ssa.Value]bool{}
+	for _, f := range s.c33SAFacts() {
+		if f.call.Parent() != fn || f.perms != pv || !c33IsRemoteAddr(f.addr) {
 			continue
 		}
-		if rc, ok := a[0].(*ssa.Call); ok && strings.HasSuffix(calleeName(&rc.Call), ".RemoteAddr") {
-			saCalls = append(saCalls, ci)
+		pass = append(pass, f.pass()...)
+		for _, v := range f.vals() {
+			verdicts[v] = true
 		}
 	}
-	pass := callSuccess(saCalls, -1, isNil)
 	exitYes, _ := edgesWhere(s.A, isNil)
-	okSA := len(pass) > 0 && len(exitYes) > 0
+	okSA := len(verdicts) > 0 && len(exitYes) > 0
 	if okSA {
 		cut := edgeSet{}
 		cut.addAll(pass)
@@ -259,6 +263,10 @@ func runC33(c *Ctx) {
 		for i, ev := range s.A.Edges {
 			pred := s.A.Block().Preds[i]
 			if errNilness(ev, pred, 0) == neverNil {
+				continue
+			}
+			// the definition IS the check's verdict: nil only if the check passed
+			if verdicts[ev] {
 				continue
 			}
 			// the incoming edge itself may be the "ev != nil" edge
@@ -282,25 +290,111 @@ func runC33(c *Ctx) {
 	}
 	c.check(okSA, "C33.source-address", "accepting exit", s.ret, "the accepting return lies behind checkSourceAddressCriticalOption(RemoteAddr(), returned perms) == nil", "the accepting return is reachable without the source-address check of the returned Permissions")
 	// cached decision: the candidate's perms are checked before the decision is cached / PK_OK is sent
-	var candCheck []ssa.CallInstruction
-	for _, ci := range callsNamed(fn, "ssh.checkSourceAddressCriticalOption") {
-		if _, f, _, ok := fieldOf(ci.Common().Args[1]); ok && f == "perms" {
-			candCheck = append(candCheck, ci)
+	// Decided on the call tree expanded in place: after a PublicKeyCallback
+	// invocation, every path of the iteration to the recording of the decision in
+	// the cache either passes the '!= nil' edge of the callback's error (a
+	// rejection needs no check) or executes
+	// checkSourceAddressCriticalOption(RemoteAddr(), <the callback's Permissions>).
+	pkCalls, pkAllocs := s.c33PKCalls()
+	{
+		isPKPerms := func(v ssa.Value) bool {
+			if ex, ok := v.(*ssa.Extract); ok && ex.Index == 0 {
+				for _, pc := range pkCalls {
+					if ex.Tuple == ssa.Value(pc) {
+						return true
+					}
+				}
+			}
+			if u, ok := v.(*ssa.UnOp); ok && u.Op == token.MUL {
+				if fa, ok := u.X.(*ssa.FieldAddr); ok {
+					if e, isE := c32EntryOf(fa.X.Type()); isE && fa.Field == e.perms {
+						al, _ := fa.X.(*ssa.Alloc)
+						return al != nil && pkAllocs[al]
+					}
+				}
+			}
+			return false
 		}
+		// rejection edges: the callback's error (or the entry's result field that
+		// holds it) tested != nil
+		cut := edgeSet{}
+		for k := range s.back {
+			cut[k] = true
+		}
+		for _, g := range s.deep {
+			allInstrs(g, func(in ssa.Instruction) {
+				v, ok := in.(ssa.Value)
+				if !ok {
+					return
+				}
+				isRes := false
+				if ex, ok := v.(*ssa.Extract); ok && ex.Index == 1 {
+					for _, pc := range pkCalls {
+						if ex.Tuple == ssa.Value(pc) {
+							isRes = true
+						}
+					}
+				}
+				if u, ok := v.(*ssa.UnOp); ok && u.Op == token.MUL {
+					if fa, ok := u.X.(*ssa.FieldAddr); ok {
+						if e, isE := c32EntryOf(fa.X.Type()); isE && fa.Field == e.result {
+							if al, _ := fa.X.(*ssa.Alloc); al != nil && pkAllocs[al] {
+								isRes = true
+							}
+						}
+					}
+				}
+				if isRes {
+					_, no := edgesWhere(v, isNil)
+					cut.addAll(no)
+				}
+			})
+		}
+		w := &c33Walker{s: s, start: s.H, cut: cut,
+			arm: c33PKCall,
+			disarm: func(fr *c33Frame, in ssa.Instruction) bool {
+				addr, perms, ok := c33IsSACheck(fr, in)
+				return ok && c33IsRemoteAddr(addr) && isPKPerms(perms)
+			},
+			target: func(fr *c33Frame, in ssa.Instruction) string {
+				if _, ok := c33AddEvent(in); ok {
+					return "the cache update"
+				}
+				return ""
+			},
+		}
+		w.run()
+		var at poser = fn
+		if w.found != nil && w.found.Pos().IsValid() {
+			at = w.found
+		}
+		c.check(len(pkCalls) > 0 && w.armed > 0 && w.found == nil, "C33.source-address", "cached public-key decision", at, "PublicKeyCallback's Permissions are checked against the source address before a non-rejecting decision is cached", "the source-address check of the PublicKeyCallback Permissions before caching/PK_OK is missing (an accepting decision reaches the cache update without it)")
 	}
-	c.check(len(candCheck) == 1, "C33.source-address", "cached public-key decision", fn, "PublicKeyCallback's Permissions are checked against the source address before the decision is cached", "the source-address check of the PublicKeyCallback Permissions before caching/PK_OK is missing")
 
 	if f := c.fn("ssh", "checkSourceAddress"); f != nil {
 		acc := acceptReturns(f, 0)
+		// the match tests, in f or in a helper of it; a helper all of whose true /
+		// nil-error returns lie behind a match hands the match to its caller
+		// through the success edges of its calls
+		sf := &saCtx{c: c, fn: f, back: backEdges(f), deep: deepFuncs(f)}
+		isMatch := func(call *ssa.Call) bool {
+			n := short(calleeName(&call.Call))
+			return n == "(net.IP).Equal" || n == "(*net.IPNet).Contains"
+		}
 		var match []edge
-		match = append(match, callSuccess(callsNamed(f, "(net.IP).Equal"), 0, isTrue)...)
-		match = append(match, callSuccess(callsNamed(f, "(*net.IPNet).Contains"), 0, isTrue)...)
-		c.mustCross("C33.source-address", "checkSourceAddress nil only on a match", f, acc, match, "an IP-equal or CIDR-contains match")
+		var matchCalls []*ssa.Call
+		for _, fct := range sf.liftFacts(sf.callFacts("match", isTrue, 0, isMatch)) {
+			match = append(match, fct.pass...)
+			if call, ok := fct.val.(*ssa.Call); ok && isMatch(call) {
+				matchCalls = append(matchCalls, call)
+			}
+		}
+		c.mustCrossDeep("C33.source-address", "checkSourceAddress nil only on a match", f, acc, match, "an IP-equal or CIDR-contains match")
 		// the matched address is the connection's TCP address
-		okArg := true
-		for _, ci := range callsNamed(f, "(net.IP).Equal", "(*net.IPNet).Contains") {
-			a := ci.Common().Args
-			if _, fld, _, ok := fieldOf(a[len(a)-1]); !ok || fld != "IP" {
+		okArg := len(matchCalls) > 0
+		for _, call := range matchCalls {
+			a := call.Call.Args
+			if o, fld, _, ok := fieldOf(c.origin(a[len(a)-1])); !ok || fld != "IP" || o != "TCPAddr" {
 				okArg = false
 			}
 		}
@@ -310,80 +404,98 @@ func runC33(c *Ctx) {
 		// returns checkSourceAddress's verdict whenever the option is present
 		ok := false
 		for _, r := range returnsOf(f) {
-			if call, isC := r.Results[0].(*ssa.Call); isC && short(calleeName(&call.Call)) == "ssh.checkSourceAddress" && call.Call.Args[0] == ssa.Value(f.Params[0]) {
-				ok = true
+			for _, l := range phiLeaves(retVal(r, 0)) {
+				if call, isC := l.val.(*ssa.Call); isC && short(calleeName(&call.Call)) == "ssh.checkSourceAddress" && call.Call.Args[0] == ssa.Value(f.Params[0]) {
+					ok = true
+				}
 			}
 		}
 		c.check(ok, "C33.source-address", "checkSourceAddressCriticalOption delegates", f, "returns checkSourceAddress(addr, option) when the option is present", "the critical option's value is not passed to checkSourceAddress with the caller's address")
 	}
 
 	// ---- last-callback binding: cache.add is a barrier after the PublicKeyCallback invocation
-	var pkCall, addCall, verify *ssa.Call
-	allInstrs(fn, func(in ssa.Instruction) {
-		call, ok := in.(*ssa.Call)
-		if !ok {
-			return
+	// Anchors by role, in fn or its helpers: the PublicKeyCallback invocations
+	// (a dynamic call of that field of a ServerAuthCallbacks set, possibly handed
+	// to a helper as a func value), the recordings of a decision in the cache (a
+	// call of a function that takes an entry by value and stores into the cache's
+	// []entry field, or such a store itself), and the PublicKey.Verify invocations.
+	var addCalls []*ssa.Call
+	var addEvents, verifies []ssa.Instruction
+	deepInstrs(fn, func(in ssa.Instruction) {
+		if _, ok := c33AddEvent(in); ok {
+			addEvents = append(addEvents, in)
+			if call, isC := in.(*ssa.Call); isC {
+				addCalls = append(addCalls, call)
+			}
 		}
-		if o, f, _, ok := callbackField(call); ok && o == "ServerAuthCallbacks" && f == "PublicKeyCallback" {
-			pkCall = call
-		}
-		switch short(calleeName(&call.Call)) {
-		case "(*ssh.pubKeyCache).add":
-			addCall = call
-		case "invoke:(ssh.PublicKey).Verify":
-			verify = call
+		if call, ok := c32IsVerifyCall(in); ok {
+			verifies = append(verifies, call)
 		}
 	})
-	if pkCall == nil || addCall == nil || verify == nil {
-		c.fail("C33.cache-add", "cache.add after PublicKeyCallback", fn, "anchors not found")
+	if len(pkCalls) == 0 || len(addEvents) == 0 || len(verifies) == 0 {
+		c.fail("C33.cache-add", "cache.add after PublicKeyCallback", fn, fmt.Sprintf("anchors not found (%d PublicKeyCallback invocation(s), %d cache update(s), %d Verify call(s) in serverAuthenticate and its helpers)", len(pkCalls), len(addEvents), len(verifies)))
 	} else {
-		avoid := map[*ssa.BasicBlock]bool{addCall.Block(): true}
-		var starts []*ssa.BasicBlock
-		for _, sblk := range pkCall.Block().Succs {
-			starts = append(starts, sblk)
+		joinHead := s.A.Block().Instrs[0]
+		w := &c33Walker{s: s, start: s.H, cut: s.cutOf(nil), backIsTarget: true,
+			arm: c33PKCall,
+			disarm: func(fr *c33Frame, in ssa.Instruction) bool {
+				_, ok := c33AddEvent(in)
+				return ok
+			},
+			target: func(fr *c33Frame, in ssa.Instruction) string {
+				if _, ok := c32IsVerifyCall(in); ok {
+					return "Verify"
+				}
+				if fr.root() && in == joinHead {
+					return "the end-of-iteration join"
+				}
+				return ""
+			},
 		}
-		r := reachAvoiding(starts, s.back, avoid)
-		badT := ""
-		if r[verify.Block()] {
-			badT = "Verify"
+		w.run()
+		var at poser = addEvents[0]
+		if w.found != nil && w.found.Pos().IsValid() {
+			at = w.found
 		}
-		var inner *ssa.Phi
-		for _, e := range s.A.Edges {
-			if q, ok := e.(*ssa.Phi); ok {
-				inner = q
+		c.check(w.armed > 0 && w.found == nil, "C33.cache-add", "cache.add after PublicKeyCallback", at,
+			"every path of the iteration from the callback invocation to Verify / the join / a continue passes cache.add (helpers expanded in place)",
+			"after PublicKeyCallback was invoked, "+w.what+" is reachable without recording the decision in the cache (an older cached decision stays authoritative)")
+		// the cached entry is the decision just obtained: the entry recorded is (a
+		// copy of) the entry that received the callback's results
+		argOK := len(addCalls) > 0 || len(addEvents) > 0
+		for _, call := range addCalls {
+			arg, _ := c33AddEvent(call)
+			src := map[*ssa.Alloc]bool{}
+			s.c33Sources(arg, 0, src, map[ssa.Value]bool{})
+			hit := false
+			for al := range src {
+				if pkAllocs[al] {
+					hit = true
+				}
+			}
+			if !hit {
+				argOK = false
 			}
 		}
-		if inner != nil && r[inner.Block()] {
-			badT = "the end-of-iteration join"
-		}
-		for e := range s.back {
-			if r[e.from] {
-				badT = "a continue of the loop"
-			}
-		}
-		sameBlockOK := pkCall.Block() != addCall.Block() || instrIndex(pkCall) < instrIndex(addCall)
-		c.check(badT == "" && sameBlockOK, "C33.cache-add", "cache.add after PublicKeyCallback", addCall,
-			"every path of the iteration from the callback invocation to Verify / the join / a continue passes cache.add",
-			"after PublicKeyCallback was invoked, "+badT+" is reachable without recording the decision in the cache (an older cached decision stays authoritative)")
-		// the cached entry is the decision just obtained: add's argument is the candidate alloc's value
-		argOK := false
-		if u, ok := addCall.Call.Args[1].(*ssa.UnOp); ok {
-			if al, ok := u.X.(*ssa.Alloc); ok && typeName(al.Type()) == "cachedPubKey" {
-				argOK = true
-			}
-		}
-		c.check(argOK, "C33.cache-add", "cache.add argument", addCall, "the entry added is this request's candidate", "cache.add does not receive the candidate of this request")
+		c.check(argOK, "C33.cache-add", "cache.add argument", addEvents[0], "the entry added is this request's candidate (the entry that received PublicKeyCallback's results)", "cache.add does not receive the candidate of this request")
+	}
+	addFn := c.fnOpt("ssh", "(*pubKeyCache).add")
+	for _, call := range addCalls {
+		addFn = call.Call.StaticCallee()
 	}
 	if k, ok := pkgConstInt(c, "ssh", "maxCachedPubKeys"); ok {
 		c.check(k == 1, "C33.cache-size", "maxCachedPubKeys", nil, "cache holds one entry", fmt.Sprintf("maxCachedPubKeys is %d; the last-callback binding requires 1", k))
 	} else {
 		c.fail("anchor", "ssh.maxCachedPubKeys", nil, "constant not found")
 	}
-	if f := c.fn("ssh", "(*pubKeyCache).add"); f != nil {
+	if f := addFn; f != nil {
+		// the function that records an entry (found by role above, else by its
+		// name): len of the cache's []entry slice — whatever the receiver and
+		// the field are called — decides whether the oldest entry is dropped
 		apps := calls(f, nameIs("builtin:append"))
 		var evict *ssa.Slice
 		allInstrs(f, func(in ssa.Instruction) {
-			if sl, ok := in.(*ssa.Slice); ok && sl.Low != nil {
+			if sl, ok := in.(*ssa.Slice); ok && sl.Low != nil && c33EntrySlice(sl.Type()) {
 				if k, ok := constInt(sl.Low); ok && k == 1 {
 					evict = sl
 				}
@@ -393,36 +505,56 @@ func runC33(c *Ctx) {
 		if ok {
 			for _, n := range []int64{0, 1, 2} {
 				e := newEnv()
-				e.bindLenPath(f, "c.keys", n)
+				bound := 0
+				allInstrs(f, func(in ssa.Instruction) {
+					if call, isC := in.(*ssa.Call); isC && calleeName(&call.Call) == "builtin:len" && c33EntrySlice(call.Call.Args[0].Type()) {
+						if _, _, base, isF := fieldOf(call.Call.Args[0]); isF {
+							if _, isP := base.(*ssa.Parameter); isP {
+								e.bind(call, n)
+								bound++
+							}
+						}
+					}
+				})
 				e.solve(f)
-				if e.reach[evict.Block()] != (n >= 1) {
+				if bound == 0 || e.reach[evict.Block()] != (n >= 1) {
 					ok = false
 				}
 			}
 		}
 		c.check(ok, "C33.cache-size", "pubKeyCache.add evicts first", f, "a full cache drops its oldest entry before appending", "pubKeyCache.add no longer evicts when the cache is full")
+	} else {
+		c.fail("C33.cache-size", "pubKeyCache.add evicts first", fn, "the function that records a cache entry was not found")
 	}
 }
 
 // c33FailureCount: value of the failures counter carried around the loop after a non-partial failure.
-func c33FailureCount(s *saCtx, failures *ssa.Phi) {
+func c33FailureCount(s *saCtx, failures, attempts *ssa.Phi) {
 	c, fn := s.c, s.fn
-	// anchors: method != "none" comparison inside the loop after A; noneAuthCount != 1 comparison
-	var methodCmp, noneCmp *ssa.BinOp
+	// inputs of the case analysis, by role: every comparison of a string with
+	// the constant "none" inside the loop (the request's method — the dispatch on
+	// the method and the exemption test are bound consistently), and the
+	// loop-carried count of "none" requests: the remaining integer loop-carried
+	// values are bound to 0 (this is the first "none" request: the count becomes 1)
+	// or 1 (it is not), so that the exemption test is evaluated, whatever its form.
+	var methodCmps []*ssa.BinOp
 	allInstrs(fn, func(in ssa.Instruction) {
 		bo, ok := in.(*ssa.BinOp)
-		if !ok || (bo.Op != token.NEQ && bo.Op != token.EQL) || !s.A.Block().Dominates(bo.Block()) {
+		if !ok || (bo.Op != token.NEQ && bo.Op != token.EQL) || !s.H.Dominates(bo.Block()) {
 			return
 		}
 		if str, ok := constString(bo.Y); ok && str == "none" {
-			methodCmp = bo
-		}
-		if k, ok := constInt(bo.Y); ok && k == 1 {
-			if _, isPhi := bo.X.(*ssa.Phi); isPhi {
-				noneCmp = bo
-			}
+			methodCmps = append(methodCmps, bo)
+		} else if str, ok := constString(bo.X); ok && str == "none" {
+			methodCmps = append(methodCmps, bo)
 		}
 	})
+	var noneCounts []*ssa.Phi
+	for _, p := range s.c33HeaderInts() {
+		if p != failures && p != attempts {
+			noneCounts = append(noneCounts, p)
+		}
+	}
 	// partial-success type assertion on A
 	var partialOK *ssa.Extract
 	allInstrs(fn, func(in ssa.Instruction) {
@@ -449,22 +581,18 @@ func c33FailureCount(s *saCtx, failures *ssa.Phi) {
 				e.bind(failures, f)
 				// a missing comparison is simply not bound: the evaluation then
 				// shows which case deviates from the specification
-				if methodCmp != nil {
+				for _, methodCmp := range methodCmps {
 					if methodCmp.Op == token.NEQ {
 						e.bind(methodCmp, 1-isNone)
 					} else {
 						e.bind(methodCmp, isNone)
 					}
 				}
-				if noneCmp != nil {
-					if noneCmp.Op == token.NEQ {
-						e.bind(noneCmp, 1-first)
-					} else {
-						e.bind(noneCmp, first)
-					}
+				for _, p := range noneCounts {
+					e.bind(p, 1-first)
 				}
 				e.bind(partialOK, 0)
-				e.bindPath(fn, "config.MaxAuthTries", 1000)
+				e.bindField(fn, "ServerConfig", "MaxAuthTries", 1000)
 				// A != nil: cut the accept edge
 				yes, _ := edgesWhere(s.A, isNil)
 				e.solve(fn)
@@ -487,6 +615,10 @@ func c33FailureCount(s *saCtx, failures *ssa.Phi) {
 				if f > 0 || isNone == 0 || first == 0 {
 					want = f + 1
 				}
+				// joins after the accept test (e.g. the post statement of a for loop
+				// that collects every continue) are resolved over the predecessors
+				// reachable after a failure only
+				e.reach = from
 				seen := false
 				for i, ev := range failures.Edges {
 					pred := s.H.Preds[i]
